@@ -137,8 +137,17 @@ def run_C10(ctx, args):
     trace = os.path.join(ctx.scratch, "trace.ndjson")
     ctx.log("E1: %d worlds (%d boundary family, %d large), %d queries"
             % (len(worlds), len(cases) - len(large), len(large), sum(1 for w in worlds for s in w["steps"] if s["op"] == "c10")))
-    ctx.go_harness("kernel", HARNESS, env={"VERIF_CASES": cpath, "VERIF_TRACE": trace}, timeout=1500)
+    # mainnet legacy fallback of verifyFinalization (store-less fixture): membership sizes at which the
+    # threshold differs between n and n-1 members
+    legacy = os.path.join(ctx.scratch, "legacy.ndjson")
+    lsizes = [8, 9, 11] if quick else sorted(set([8, 9, 11, 12, 14, 15, 17, 18, 49, 50] + rng.sample(range(19, 49), 6)))
+    ctx.go_harness("kernel", "^TestVerifMembership(Legacy)?$",
+                   env={"VERIF_CASES": cpath, "VERIF_TRACE": trace, "VERIF_TRACE_LEGACY": legacy,
+                        "VERIF_LEGACY_SIZES": ",".join(map(str, lsizes))}, timeout=1500)
+    with open(trace, "a") as fh:
+        fh.write(open(legacy).read())
     events = read_ndjson(trace)
+    ctx.cov["legacy_fallback_certificates"] = sum(1 for e in events if e["ev"] == "Legacy")
     qs = [e for e in events if e["ev"] == "C10"]
     ctx.evaluations = len(qs)
     # distinct non-trivial = distinct (kind, threshold, key-set size, number of listed records) observed
@@ -160,7 +169,7 @@ def run_C10(ctx, args):
              "real ConsensusThreshold/ConsensusKeys break the quorum-intersection inequality of C10")
     ctx.assumptions += [
         "time is sampled on a 10 s grid (every threshold of the code is a multiple of 10 s); sub-tick offsets are not explored",
-        "non-mainnet network id: the predictive removal signer set is always active and the legacy mainnet fallback of verifyFinalization is out of scope",
+        "store-backed worlds use a non-mainnet network id (predictive removal signer set always active); the mainnet legacy fallback of verifyFinalization is exercised separately on a store-less Node assembled from a membership list (mainnet id, timestamps before the signer-set fork, one removal inside the window)",
         "membership records are written through storage (WriteTransaction+WriteSnapshot), which admits histories the kernel's own validation would refuse (spacing below 12 h); they over-approximate the reachable ones",
         "count-level theorem is exhaustive up to 50 members; on the real code configurations are the emitted families (boundary exhaustively, sizes up to 50 sampled by seed)",
     ]
@@ -243,14 +252,15 @@ def run_C29(ctx, args):
 
 
 # --------------------------------------------------------------------------- C11
-def ticks_of(state):
+def ticks_of(state, ns):
     ts = {r[1] for r in state["h"]} | set(state["c"])
     out = {t for x in ts for t in (x - 1, x, x + 1) if t >= 1}
-    out |= {x + 4321 for x in ts if x > 0}
+    if not ns:
+        out |= {x + 4321 for x in ts if x > 0}
     return sorted(out)
 
 
-def world_of_walk(i, walk, rng):
+def world_of_walk(i, walk, rng, ns):
     steps = []
     ncust = 0
     cold_at = rng.randrange(len(walk))
@@ -262,12 +272,18 @@ def world_of_walk(i, walk, rng):
             ncust += 1
             steps.append({"op": "cust", "ts": o["ts"], "order": ncust})
         # ask for every boundary tick of the ledger so far, in a seeded order; once per walk after a restart
-        qs = ticks_of(e["to"])
+        qs = ticks_of(e["to"], ns)
         rng.shuffle(qs)
         cold = (j == cold_at)
         for n, t in enumerate(qs):
             steps.append({"op": "views", "t": t, "cold": cold and n == 0})
-    return {"id": "v%d" % i, "g": 7, "x": 2, "nodes": 1, "steps": steps}
+    w = {"id": "v%d" % i, "g": 7, "x": 2, "nodes": 1, "steps": steps}
+    if ns:
+        # one abstract tick = 1 ns: records at "adjacent" ticks are adjacent nanoseconds and the questions
+        # hit exactly t-1, t, t+1 ns. All ages stay <= 3 ticks, below every threshold of the code in either
+        # unit, and all timestamps stay in hour 0 of day 0, so the specification's answers are the same.
+        w["tickns"] = 1
+    return w
 
 
 def run_C11(ctx, args):
@@ -288,7 +304,8 @@ def run_C11(ctx, args):
     limit = 36 if quick else 400
     if len(walks) > limit:
         walks = rng.sample(walks, limit)
-    worlds = [world_of_walk(i, w, rng) for i, w in enumerate(walks)]
+    # every other walk is replayed with nanosecond ticks
+    worlds = [world_of_walk(i, w, rng, i % 2 == 1) for i, w in enumerate(walks)]
     ctx.cov["edges"] = len(edges)
     ctx.cov["cover_walks_total"] = total
     ctx.cov["walks_replayed"] = len(walks)
@@ -325,7 +342,7 @@ def run_C11(ctx, args):
     validate(ctx, d, "C11", trace, events,
              "a view for an earlier timestamp changed after a later record was appended / between warm and cold answers")
     ctx.assumptions += [
-        "time is sampled on a 10 s grid; appended records carry non-decreasing timestamps (equal and adjacent ones included)",
+        "time: half of the walks on a 10 s grid, half with 1 ns ticks (equal and adjacent-nanosecond timestamps); appended records carry non-decreasing timestamps",
         "ConsensusKeys is observed on a chain with round state; the pledging chain's round-0 key set depends on the chain having no rounds yet, which is ledger state written by the accept itself (see report)",
         "cold = the Node and BadgerStore objects are dropped and rebuilt by the real SetupNode on the same directory",
         "custodian updates are written with genesis-typed inputs (storage does not look at the inputs); their extras are fully signed",
